@@ -394,6 +394,40 @@ def kx_time_iou(params, timeout):
     return out
 
 
+SELF_INPUTS = [
+    ("Point", [3.807579170447651, 509.872010869577]),  # 1.0000000000000007 before 291f43f
+    ("LineString", [[7.381607955203364, 264.8903561473315], [7.741041664929092, 1051.2438809880448]]),
+    ("Polygon", [[[7.023426923625316, 1575.0546039772123], [7.200582331752644, 1631.2426639965781],
+                  [8.018024913328127, 1885.0098934396124], [7.023426923625316, 1575.0546039772123]]]),
+]
+
+
+def ob_self_geos(i: int) -> bool:
+    """
+    pre: 0 <= i < 3
+    post: _
+    """
+    # replay target of the recorded inputs: self-affinity through real GEOS stays in [0, 1]
+    kind, coords = SELF_INPUTS[i]
+    g = getattr(data, kind)(coordinates=coords)
+    a = aff.compute_affinity(g, g)
+    if not (0 <= a <= 1):
+        return h.fail("affinity outside [0, 1] in doubles")
+    return h.done(any=True)
+
+
+def probe_self_geos(params, timeout):
+    """Re-evaluates, on the real code with real GEOS, the recorded inputs of the repaired finding
+    C06-geos-affinity-above-one (no solver involved: GEOS area arithmetic is outside the encodable part)."""
+    h.PARAMS.clear()
+    for i in range(len(SELF_INPUTS)):
+        if not ob_self_geos(i):
+            return {"status": "refuted", "replay_fn": "ob_self_geos", "args": [[i], {}], "queries": 0,
+                    "message": "compute_affinity(g, g) for the recorded %s is outside [0, 1]" % SELF_INPUTS[i][0],
+                    "clause": "affinity outside [0, 1] in doubles"}
+    return {"status": "confirmed", "queries": 0, "note": "all recorded inputs give an affinity in [0, 1]"}
+
+
 def plan():
     q = ("quick", "thorough")
     obs = []
@@ -429,6 +463,7 @@ def plan():
     for (k1, k2) in (("TimeInterval", "TimeInterval"), ("TimeStamp", "TimeInterval"), ("TimeStamp", "TimeStamp")):
         obs.append(Ob("ieee-time-%s-%s" % (k1, k2), kx_time_iou, "kx", 900, dict(k1=k1, k2=k2), ("thorough",),
                       kind="py"))
+    obs.append(Ob("geos-self-affinity-recorded-inputs", probe_self_geos, "kx", 60, dict(), q, kind="py"))
     obs.append(Ob("ieee-time-witness", kx_time_iou, "kx", 600, dict(k1="TimeStamp", k2="TimeInterval", witness=True),
                   ("thorough",), kind="py"))
     return obs
@@ -453,7 +488,8 @@ INFO = dict(
         "fl(n/d) > 1 <=> n > d discharged at run time; tie, containment and disjoint paths are refuted, the "
         "partial-overlap paths end without verdict) — 'never more than 1' in doubles is NOT decided",
         "the 64 type pairs that need GEOS buffer/intersection (Point, LineString, MultiPoint, MultiLineString "
-        "anywhere; Polygon/MultiPolygon against non-time types); ratios such as 1.0000000000000007 arise there and "
-        "are not reachable by this technique",
+        "anywhere; Polygon/MultiPolygon against non-time types); ratios such as 1.0000000000000007 arose there "
+        "(repaired by 291f43f; three recorded inputs are re-evaluated on the real code by "
+        "geos-self-affinity-recorded-inputs) and are not reachable by solver queries",
     ],
 )
